@@ -1740,6 +1740,137 @@ def r8(ctx):
                mg.where)
 
 
+def _enum_base(repo, mod, name: str):
+    """('std', 'IntEnum'|'IntFlag') | ('repo', ClassInfo) | None for a class reference seen in module `mod`
+    (explicit imports win over star imports, which win over the by-name fallback)."""
+    parts = name.split(".")
+    last = parts[-1]
+    if len(parts) == 2 and mod.imports.get(parts[0]) == "enum":
+        return ("std", last) if last in ("IntEnum", "IntFlag") else None
+    if len(parts) == 1:
+        tgt = mod.imports.get(last)
+        if tgt in ("enum.IntEnum", "enum.IntFlag"):
+            return "std", tgt.split(".")[1]
+        for ci in repo.classes.get(last, []):
+            if ci.module is mod:
+                return "repo", ci
+        if tgt:
+            modname, _, attr = tgt.rpartition(".")
+            m2 = repo.by_modname.get(modname)
+            for ci in repo.classes.get(attr, []):
+                if m2 is not None and ci.module is m2:
+                    return "repo", ci
+            return None
+        for star in mod.star_imports:
+            m2 = repo.by_modname.get(star)
+            for ci in repo.classes.get(last, []):
+                if m2 is not None and ci.module is m2:
+                    return "repo", ci
+            if star == "enum" and last in ("IntEnum", "IntFlag"):
+                return "std", last
+        return None
+    ci = repo.resolve_class(name, mod)
+    return ("repo", ci) if ci is not None else None
+
+
+def _int_enum_family(repo, ci, seen=None):
+    """Which stdlib int-enum base ('IntEnum'/'IntFlag') a repo class derives from, and the repo classes on the way."""
+    seen = seen or set()
+    if ci.qual in seen:
+        return None, []
+    seen.add(ci.qual)
+    for b in ci.base_names:
+        r = _enum_base(repo, ci.module, b)
+        if r is None:
+            continue
+        if r[0] == "std":
+            return r[1], [ci]
+        fam, chain = _int_enum_family(repo, r[1], seen)
+        if fam:
+            return fam, [ci] + chain
+    return None, []
+
+
+def r9(ctx):
+    repo = ctx.repo
+    ctx.rule("C18.R9", "block values that are int enums are stored as plain ints (enum members neither pickle reliably "
+                       "nor format as LLSD notation): Block.__setitem__'s isinstance whitelist covers every IntEnum / "
+                       "IntFlag class of the repository")
+    f = repo.fn("Block.__setitem__", MSG)
+    params = [a.arg for a in f.node.args.args]
+    ctx.require(len(params) == 3, "Block.__setitem__ signature changed")
+    val_p = params[2]
+    white = []
+    for st in stores(f.node):
+        if st.path == val_p and st.kind == "assign" and isinstance(st.value, ast.Call) and ap(st.value.func) == "int":
+            for e, pol in facts(st.node, f.node):
+                tests = e.values if (pol and isinstance(e, ast.BoolOp) and isinstance(e.op, ast.Or)) else [e]
+                if not pol or not all(isinstance(t, ast.Call) and ap(t.func) == "isinstance" and len(t.args) == 2 and
+                                      ap(t.args[0]) == val_p for t in tests):
+                    continue
+                for t in tests:
+                    white.extend(t.args[1].elts if isinstance(t.args[1], ast.Tuple) else [t.args[1]])
+    ctx.ob("C18.R9", "Block.__setitem__ coerces int-enum values to int", bool(white), f.where,
+           "no `value = int(value)` under an isinstance test of the value")
+    if not white:
+        return
+    std, repo_w = set(), []
+    for e in white:
+        r = _enum_base(repo, f.module, ap(e) or "")
+        if r is None:
+            nm = (ap(e) or "").split(".")[-1]
+            if nm in ("int", "Enum"):
+                std |= {"IntEnum", "IntFlag"} if nm == "Enum" else set()
+            continue
+        if r[0] == "std":
+            std.add(r[1])
+        else:
+            repo_w.append(r[1])
+    universe = []
+    for lst in repo.classes.values():
+        for ci in lst:
+            fam, chain = _int_enum_family(repo, ci)
+            if fam:
+                universe.append((ci, fam, chain))
+    ctx.floor("C18.R9", "IntEnum/IntFlag classes in the repository", len(universe), 10)
+    uncovered = sorted(f"{ci.module.rel.split('/')[-1]}:{ci.name}" for ci, fam, chain in universe
+                       if fam not in std and not any(w == c for w in repo_w for c in chain))
+    ctx.ob("C18.R9", "the int-enum whitelist of Block.__setitem__ covers every IntEnum/IntFlag class", not uncovered, f.where,
+           f"{len(uncovered)} classes are not instances of the whitelisted types {[norm(e) for e in white]} "
+           f"(e.g. {uncovered[:4]}): their members stay enum objects in the block, freeze()/export then fail")
+
+
+def r10(ctx):
+    repo = ctx.repo
+    ctx.rule("C18.R10", "the view rebuild tells entries apart by identity (`m not in self._raw_entries`): log entry "
+                        "classes must not define value equality")
+    users = []
+    for q in ("FilteringMessageLogger.set_filter", "FilteringMessageLogger.add_log_entry"):
+        g = inline_self_calls(repo, repo.fn(q))
+        for n in walk(g.node, into_defs=True):
+            if isinstance(n, ast.Compare) and any(isinstance(o, (ast.In, ast.NotIn)) for o in n.ops) and \
+                    any(ap(x) in ("self._raw_entries", "self._filtered_entries") for x in n.comparators):
+                users.append((g, n))
+            elif isinstance(n, ast.Call) and isinstance(n.func, ast.Attribute) and n.func.attr in ("index", "remove", "count") and \
+                    ap(n.func.value) in ("self._raw_entries", "self._filtered_entries"):
+                users.append((g, n))
+    if not users:
+        ctx.note("C18.R10: the logger no longer uses ==-based membership on its buffers; entry equality is unconstrained")
+        return
+    base = repo.cls("AbstractMessageLogEntry", LOGR)
+    fam = [c for c in repo.mro(base)] + repo.subclasses(base, strict=True)
+    for ci in sorted({c.qual: c for c in fam}.values(), key=lambda c: c.qual):
+        eq = ci.methods.get("__eq__")
+        ident = False
+        if eq is not None:
+            rets = returns_of(eq.node)
+            ident = len(rets) == 1 and isinstance(rets[0].value, ast.Compare) and len(rets[0].value.ops) == 1 and \
+                isinstance(rets[0].value.ops[0], ast.Is)
+        ctx.ob("C18.R10", f"{ci.name} compares by identity", eq is None or ident, ctx.w(ci.module, eq.node if eq else ci.node),
+               f"`{norm(users[0][1])}` in {users[0][0].qual} treats two distinct entries with equal content as the same "
+               f"entry: an aged-out row equal to a retained one vanishes from the view")
+
+
 def run(ctx):
     rules = grammar_rules(ctx)
     ctx.floor("C18", "grammar rules reachable from the start rule", len(rules), 10)
@@ -1751,6 +1882,8 @@ def run(ctx):
     r6(ctx)
     r7(ctx)
     r8(ctx)
+    r9(ctx)
+    r10(ctx)
     ctx.assume("arpeggio semantics: python list = ordered choice committing to the first matching alternative, "
                "string alternatives match by prefix; regex alternatives are not compared")
     ctx.assume("child filter nodes return MatchResult(False, []) | MatchResult(True, fields) (fields possibly empty)")
